@@ -242,3 +242,79 @@ for _has in (False, True):
              name=SJ + '::DiagonalSubjac.set_col[%s]' % ('audit list exists' if _has else 'first offending column'),
              canaries=[('diagonal entry not excluded from the audit', ('column[icol] = 0.  # zero out', 'pass  # zero out'), 'post'),
                        ('column left zeroed after the audit', ('            column[icol] = save', '            pass'), 'post')] if not _has else [])
+
+
+# ---- CSCSubjac.set_col: the declared pattern of column icol is {indices[k] : indptr[icol] <= k < indptr[icol+1]} -------
+def native_csc(vals, np, om):
+    from pyvc.native_helpers import A, Fl
+    from openmdao.jacobians.subjac import CSCSubjac
+    import types
+    obj = CSCSubjac.__new__(CSCSubjac)
+    vi = vals['self']['info']
+    v = vi['val']['attrs'] if isinstance(vi['val'], dict) and 'attrs' in vi['val'] else vi['val']
+    csc = types.SimpleNamespace(indices=A(v['indices'], int), indptr=A(v['indptr'], int), data=A(v['data']))
+    info = {'val': csc}
+    if 'uncovered_nz' in vi:
+        info['uncovered_nz'] = [(97, 98)]
+        info['uncovered_threshold'] = Fl(vi['uncovered_threshold'])
+    obj.info = info
+    n0 = len(info.get('uncovered_nz', []))
+
+    def ghost(name):
+        new = obj.info.get('uncovered_nz', [])[n0:]
+        return new if new else None
+
+    def in_pairs(ps, a, b):
+        return ps is not None and any(int(x) == a and int(y) == b for x, y in ps)
+    thr = vals['uncovered_threshold']
+    column = A(vals['column'])
+    return (dict(self=obj, icol=int(vals['icol']), column=column, uncovered_threshold=None if thr is None else Fl(thr)),
+            dict(nr=len(column), nnz=len(csc.data), np1=len(csc.indptr), ghost=ghost, in_pairs=in_pairs))
+
+
+def sample_csc(has):
+    def samp(rng):
+        nr = rng.choice([1, 2, 3, 4])
+        nc = rng.choice([1, 2, 3])
+        fr = lambda k: {'__frac__': [k, 8]}
+        indptr, indices = [0], []
+        for j in range(nc):
+            rows = sorted(rng.sample(range(nr), rng.randrange(0, nr + 1)))
+            indices += rows
+            indptr.append(len(indices))
+        nnz = len(indices)
+        csc = {'__obj__': 'csc_matrix', 'id': 2, 'attrs': {
+            'indices': {'__arr__': indices, 'shape': [nnz], 'dtype': 'int'}, 'indptr': {'__arr__': indptr, 'shape': [nc + 1], 'dtype': 'int'},
+            'data': {'__arr__': [fr(rng.choice([-8, 0, 3, 5])) for _ in range(nnz)], 'shape': [nnz], 'dtype': 'real'}}}
+        info = [['val', csc]]
+        if has:
+            info += [['uncovered_nz', {'__obj__': 'list', 'id': 1, 'attrs': {}}], ['uncovered_threshold', fr(1)]]
+        return {'self': {'__obj__': 'CSCSubjac', 'id': 0, 'attrs': {'info': {'__dict__': info}}}, 'icol': rng.randrange(nc),
+                'column': {'__arr__': [fr(rng.choice([-16, -1, 0, 0, 1, 2, 8, 24])) for _ in range(nr)], 'shape': [nr], 'dtype': 'real'},
+                'uncovered_threshold': rng.choice([None, fr(0), fr(1), fr(12)])}
+    return samp
+
+
+CSCV = "self.info['val']"
+INCOL = "({v}.indptr[icol] <= k and k < {v}.indptr[icol + 1])".format(v=CSCV)
+for _has in (False, True):
+    info = {'val': Obj('csc_matrix', indices=Arr('nnz', dtype='int'), indptr=Arr('np1', dtype='int'), data=Arr('nnz'))}
+    if _has:
+        info['uncovered_nz'] = Obj('list')
+        info['uncovered_threshold'] = Real()
+    contract(SJ + '::CSCSubjac.set_col', ['C13'],
+             dict(self=Obj('CSCSubjac', info=DictT(info)), icol=Int(0, None), column=Arr('nr'), uncovered_threshold=OneOf(None, Real())),
+             requires=['icol + 1 < np1', '0 <= {v}.indptr[icol] and {v}.indptr[icol] <= {v}.indptr[icol + 1] and {v}.indptr[icol + 1] <= nnz'.format(v=CSCV),
+                       'all(0 <= {v}.indices[k] and {v}.indices[k] < nr for k in range(nnz))'.format(v=CSCV),
+                       'implies(uncovered_threshold is not None, uncovered_threshold >= 0)'],
+             ensures=['all({v}.data[k] == (old(column[{v}.indices[k]]) if {c} else old({v}.data[k])) for k in range(nnz))'.format(v=CSCV, c=INCOL),
+                      'all(column[r] == old(column[r]) for r in range(nr))',
+                      "implies(uncovered_threshold is not None, all(implies(in_pairs(ghost('appended'), r, icol), abs(column[r]) > uncovered_threshold and all(not ({c} and {v}.indices[k] == r) for k in range(nnz))) for r in range(nr)))".format(v=CSCV, c=INCOL),
+                      "implies(uncovered_threshold is not None, all(implies(abs(column[r]) > uncovered_threshold and all(not ({c} and {v}.indices[k] == r) for k in range(nnz)), in_pairs(ghost('appended'), r, icol)) for r in range(nr)))".format(v=CSCV, c=INCOL),
+                      "implies(uncovered_threshold is None, ghost('appended') is None)",
+                      "implies(ghost('appended') is not None, 'uncovered_nz' in self.info and 'uncovered_threshold' in self.info)"]
+             + ([] if _has else ["implies(ghost('appended') is not None, self.info['uncovered_threshold'] == uncovered_threshold)"]),
+             modifies=[CSCV + '.data', 'self.info'], ghost_init={'appended': None}, native=native_csc, sampler=sample_csc(_has),
+             assumed={"self.info['uncovered_nz'].extend": Assumed(ghost=_ext_ghost, note='list.extend on the audit list (the appended sequence is recorded as ghost state)')},
+             name=SJ + '::CSCSubjac.set_col[%s]' % ('audit list exists' if _has else 'first offending column'),
+             canaries=[('column pointer off by one', ('rowinds = csc.indices[csc.indptr[icol]:csc.indptr[icol + 1]]', 'rowinds = csc.indices[csc.indptr[icol]:csc.indptr[icol + 1] - 1]'), 'post')] if not _has else [])
